@@ -93,11 +93,17 @@ func (c *Client) Get(ctx context.Context, key client.ObjectKey, obj client.Objec
 	if err := c.pre(false, c.gr(obj), key.Name); err != nil {
 		return err
 	}
+	if handled, err := c.fastGet(key, obj); handled {
+		return err
+	}
 	return c.inner.Get(ctx, key, obj, opts...)
 }
 
 func (c *Client) List(ctx context.Context, list client.ObjectList, opts ...client.ListOption) error {
 	if err := c.pre(false, schema.GroupResource{}, ""); err != nil {
+		return err
+	}
+	if handled, err := c.fastList(list, opts); handled {
 		return err
 	}
 	return c.inner.List(ctx, list, opts...)
